@@ -604,6 +604,105 @@ def _rewrite_blocks(node, one):
         _rewrite_blocks(c, one)
 
 
+def _merge_parts(node):
+    """`a = {}` ... a[k] = v ...; `b = {}` ... b[k] = v ...; `t = {**a, **b}` (or dict(a, **b), a | b, t = dict(a); t.update(b))
+    with a and b used for nothing else and filled one after the other in merge order  ->  one mapping t that both
+    passes store into: layering b's entries over a's at the end is storing them on top of a's as they come."""
+    stmts = A.all_stmts(node)
+    pos = {id(st): i for i, st in enumerate(stmts)}
+    pm = A.parent_map(node)
+    occ = {}
+    for x in A.walk_body(node):
+        if isinstance(x, ast.Name):
+            occ.setdefault(x.id, []).append(x)
+
+    def empty(v):
+        return (isinstance(v, ast.Dict) and not v.keys) or (isinstance(v, ast.Call) and isinstance(v.func, ast.Name) and v.func.id == "dict" and not v.args and not v.keywords)
+
+    def part(name):
+        """(init statement, [store statements], the one other use) of a local that is only created empty, stored into and used once"""
+        init, stores, other = None, [], []
+        for x in occ.get(name, []):
+            p_ = pm.get(x)
+            if isinstance(p_, (ast.Assign, ast.AnnAssign)) and (p_.targets[0] if isinstance(p_, ast.Assign) else p_.target) is x and p_.value is not None and empty(p_.value) \
+                    and (not isinstance(p_, ast.Assign) or len(p_.targets) == 1):
+                if init is not None:
+                    return None
+                init = p_
+            elif isinstance(p_, ast.Subscript) and p_.value is x and isinstance(p_.ctx, ast.Store) and isinstance(pm.get(p_), ast.Assign) and len(pm.get(p_).targets) == 1:
+                stores.append(pm.get(p_))
+            else:
+                other.append(x)
+        if init is None or not stores or len(other) != 1:
+            return None
+        return init, stores, other[0]
+
+    def parts_of(e):
+        """names merged by an expression, in the order in which later ones win"""
+        if isinstance(e, ast.Dict) and e.keys and all(k is None for k in e.keys) and all(isinstance(v, ast.Name) for v in e.values):
+            return [v.id for v in e.values]
+        if isinstance(e, ast.BinOp) and isinstance(e.op, ast.BitOr):
+            l, r = parts_of(e.left), parts_of(e.right)
+            return l + r if l and r else None
+        if isinstance(e, ast.Name):
+            return [e.id]
+        if isinstance(e, ast.Call) and isinstance(e.func, ast.Name) and e.func.id == "dict" and len(e.args) == 1 and isinstance(e.args[0], ast.Name) \
+                and all(k.arg is None and isinstance(k.value, ast.Name) for k in e.keywords):
+            return [e.args[0].id] + [k.value.id for k in e.keywords]
+        if isinstance(e, ast.Call) and isinstance(e.func, ast.Attribute) and e.func.attr == "copy" and not e.args and isinstance(e.func.value, ast.Name):
+            return [e.func.value.id]
+        return None
+
+    for st in stmts:
+        if not (isinstance(st, ast.Assign) and len(st.targets) == 1 and isinstance(st.targets[0], ast.Name)):
+            continue
+        t = st.targets[0].id
+        names = parts_of(st.value)
+        if not names or t in names or isinstance(st.value, ast.Name):
+            continue
+        drop = [st]
+        # t.update(b) statements that follow
+        for x in occ.get(t, []):
+            c = pm.get(pm.get(x)) if isinstance(pm.get(x), ast.Attribute) else None
+            if isinstance(c, ast.Call) and c.func is pm.get(x) and c.func.attr == "update" and len(c.args) == 1 and not c.keywords and isinstance(c.args[0], ast.Name) \
+                    and isinstance(pm.get(c), ast.Expr) and pos.get(id(pm.get(c)), -1) > pos[id(st)]:
+                names = names + [c.args[0].id]
+                drop.append(pm.get(c))
+        if len(names) < 2 or len(set(names)) != len(names):
+            continue
+        ps = [part(n_) for n_ in names]
+        if any(p_ is None for p_ in ps):
+            continue
+        if sum(1 for x in occ.get(t, []) if isinstance(x.ctx, ast.Store)) != 1:
+            continue
+        # filled one after the other, in merge order, each before it is merged in
+        ok = True
+        last = -1
+        for (init, stores, use), n_ in zip(ps, names):
+            ss = sorted(pos[id(s_)] for s_ in stores)
+            ok = ok and ss[0] > last and pos[id(init)] < ss[0]
+            last = ss[-1]
+            home = [d_ for d_ in drop if any(y is use for y in ast.walk(d_))]
+            ok = ok and bool(home) and ss[-1] < pos[id(home[0])]
+        if not ok:
+            continue
+        first_init = ps[0][0]
+        removed = {id(d_) for d_ in drop} | {id(p_[0]) for p_ in ps[1:]}
+        for (init, stores, use) in ps:
+            for s_ in stores:
+                s_.targets[0].value = ast.copy_location(ast.Name(id=t, ctx=ast.Load()), s_.targets[0].value)
+        new_init = ast.fix_missing_locations(ast.copy_location(ast.Assign(targets=[ast.Name(id=t, ctx=ast.Store())], value=first_init.value, type_comment=None), first_init))
+
+        def one(x):
+            if x is first_init:
+                return [new_init]
+            return [] if id(x) in removed else [x]
+
+        _rewrite_blocks(node, one)
+        return _merge_parts(node)  # tables are stale: start over for a further merge
+    return node
+
+
 def view(ck, qual_or_fi, how):
     """The per-function bundle of a function rewritten into ONE spelling, so that a rule reads the same thing
     whichever way the code says it.  how='branches': conditional expressions that are the whole value of an
@@ -619,6 +718,8 @@ def view(ck, qual_or_fi, how):
     if key not in memo:
         node = copy.deepcopy(fi.node)
         _rewrite_blocks(node, _lower_stmt if how == "branches" else _raise_stmt)
+        if how == "branches":
+            node = _merge_parts(node)
         changed = ast.dump(node) != ast.dump(fi.node)
         inl = getattr(ck.repo, "inliner", None)
         if changed and inl is not None and how == "branches":
